@@ -5,7 +5,7 @@ import astral
 from astral import Observer, LocationInfo
 from astral.location import Location
 import astral.geocoder as geo
-from common import F, FS, I, S, E, N, Case, call
+from common import F, FS, I, S, E, N, Case, call, invoke
 
 DEG, PRIME, DPRIME = "°", "′", "″"
 DMS_ALPHABET = list("0123456789") + [DEG, PRIME, "'", DPRIME, '"', "N", "S", "E", "W",
@@ -327,7 +327,7 @@ def gen_geocoder(rng, n, tier="quick"):
                 q = rng.choice(NAMES + ["London,England", "london,", "Abu Dhabi,UAE"])
 
                 def f():
-                    return geo.lookup_in_group(q, geo.group(g, db))
+                    return invoke(geo.lookup_in_group, q, invoke(geo.group, g, db))
                 st, r = call(f)
                 yield Case("lookup_in_group", "db_lookup_in_group %s %s %s" % (I(h), S(g), S(q)),
                            ("R " + rec_tok(r)) if st == "ok" else E(r), {"handle": h, "group": g, "name": q})
